@@ -42,6 +42,18 @@ One constructor of `Norm` per normalisation class, one `def` per C++ function th
                          src/recon_buildblock/BinNormalisationWithCalibration.cxx:86-91), `set_radionuclide` (:105-109, does not) and
                          `set_up` (:57-65: `_calib_decay_branching_ratio = calibration_factor * get_branching_ratio()`,
                          `get_branching_ratio` :93-103 gives 1 for a ratio `<= 0`).
+* `isTofData`, `GeomCmp`, `fromProjDataUsesNonTofClone`, `fromProjDataSetUpTof`  WHICH geometry `BinNormalisationFromProjData::set_up`
+                         compares the factors with (src/recon_buildblock/BinNormalisationFromProjData.cxx:88-96): the non-TOF clone of the
+                         data geometry iff the factors are not TOF data and the data are — `is_tof_data()`, i.e. the TOF mashing factor,
+                         so also for data mashed to ONE TOF bin; `fromProjDataIsTofOnly` = `is_TOF_only_norm()` (:73-79).
+* `FpdObj`, `FpdStep`    ONE `BinNormalisationFromProjData` object through constructors / `parse` / `set_up` (`post_processing` :51-58
+                         replaces the stored factors unconditionally; `ParsingObject::parse`, src/buildblock/ParsingObject.cxx:65-85, does
+                         not call `set_defaults`; `set_up` calls the base class before it compares).
+* `AttenObj`             ONE `BinNormalisationFromAttenuationImage` object: which image it holds and how many times `post_processing`
+                         (src/recon_buildblock/BinNormalisationFromAttenuationImage.cxx:56-97) has rescaled it — the file is read only while
+                         the object holds no image, the rescaling happens at every call (as the code is; finding, see Props).
+* `ChainObj`, `MemberKey`  ONE `ChainedBinNormalisation` object: members replaced per parsing key (`None` = null pointer), new members
+                         are not set up until the chain's `set_up`.
 * `slab`, `boxInterval`, `acfBox`  the expectation side of the clause "attenuation correction factors … are the exponentials of its line
                          integrals": for a uniform box-shaped attenuation map (all planes) the line integral along the LOR from `p` to `q`
                          is `μ × (length of the part of the LOR inside the box)`, computed by clipping the parameter interval `[0,1]` of
@@ -249,8 +261,15 @@ def isSecondTrivial (tol : K) (_n1 n2 : Norm K) : Option Bool :=
     `apply`/`undo`: `error` unless `set_up` was called and the geometry of `set_up` is `>=` the geometry of the data -/
 def checkUse (alreadySetUp setUpGeometryGE : Bool) : Bool := alreadySetUp && setUpGeometryGE
 
-/-- `BinNormalisationFromAttenuationImage::set_up` (:123-131): `error` iff `get_num_tof_poss() > 1` -/
-def fromAttenSetUp (numTofPoss : Int) : Bool := !(decide (1 < numTofPoss))
+/-- `ProjDataInfo::is_tof_data()` (src/include/stir/ProjDataInfo.inl:180-198) for consistent data: TOF data are the data with a
+    TOF mashing factor `> 0` — whatever the number of TOF bins; data mashed by the maximum number of TOF bins of the scanner
+    are TOF data with ONE TOF bin -/
+def isTofData (tofMashFactor : Int) : Bool := decide (0 < tofMashFactor)
+
+/-- `BinNormalisationFromAttenuationImage::set_up`: `error` iff `proj_data_info_ptr->is_tof_data()` (repaired code, fix C13-2:
+    before it the test was `get_num_tof_poss() > 1`, which let TOF data mashed to one TOF bin pass); the argument is the TOF
+    mashing factor of the data -/
+def fromAttenSetUp (tofMashFactor : Int) : Bool := !(isTofData tofMashFactor)
 
 /-- `BinNormalisationPETFromComponents::set_up` (:69-108): the comparison with the geometry given to `allocate` comes after
     the base class has overwritten `proj_data_info_sptr` (so it cannot fail); then `create_proj_data` calls
@@ -384,6 +403,180 @@ def CalibObj.run : CalibObj K → List (CalibStep K) → CalibObj K
   | o, .setCalibration c :: r => CalibObj.run (o.setCalibration c) r
   | o, .setRadionuclide br :: r => CalibObj.run (o.setRadionuclide br) r
   | o, .setUp :: r => CalibObj.run o.setUp r
+
+/-! ### TOF data with non-TOF factors: which geometry `BinNormalisationFromProjData::set_up` compares -/
+
+/-- the five comparisons `set_up` makes between the geometry of the factors and a data geometry
+    (`==`, `>=`, min / max tangential position equal, axial ranges of the data's segments equal) -/
+structure GeomCmp where
+  equal : Bool
+  ge : Bool
+  tangMinEq : Bool
+  tangMaxEq : Bool
+  axialRangesEq : Bool
+
+/-- `fromProjDataSetUp` on a `GeomCmp` -/
+def GeomCmp.accepts (c : GeomCmp) : Bool := fromProjDataSetUp c.equal c.ge c.tangMinEq c.tangMaxEq c.axialRangesEq
+
+/-- `BinNormalisationFromProjData::set_up` (:88-94): `if (!norm_proj.is_tof_data() && proj_data_info_sptr->is_tof_data())
+    proj_to_check_sptr = proj_data_info_sptr->create_non_tof_clone();` — the condition looks at `is_tof_data()` of both
+    geometries (the mashing factors), NOT at the numbers of TOF bins -/
+def fromProjDataUsesNonTofClone (normTofMash dataTofMash : Int) : Bool := !isTofData normTofMash && isTofData dataTofMash
+
+/-- the decision of `BinNormalisationFromProjData::set_up` (:81-121) given the comparisons of the factor geometry with the data
+    geometry as it is (`asIs`) and with its non-TOF clone (`nonTofClone`) -/
+def fromProjDataSetUpTof (normTofMash dataTofMash : Int) (asIs nonTofClone : GeomCmp) : Bool :=
+  if fromProjDataUsesNonTofClone normTofMash dataTofMash then nonTofClone.accepts else asIs.accepts
+
+/-- `BinNormalisationFromProjData::is_TOF_only_norm()` (:73-79): `get_num_tof_poss() > 1` of the factors -/
+def fromProjDataIsTofOnly (normNumTofPoss : Int) : Bool := decide (1 < normNumTofPoss)
+
+/-! ### one object through constructors, `parse` and `set_up`
+
+`ParsingObject::parse` (src/buildblock/ParsingObject.cxx:65-85) is `initialise_keymap` (first time only), `set_key_values`,
+`parser.parse`, `post_processing`: it does NOT call `set_defaults`, so whatever the object held before stays unless a key of the
+text or `post_processing` replaces it; in particular `_already_set_up` is not reset. -/
+
+/-- ONE `BinNormalisationFromProjData` object: `norm_proj_data_ptr` (the stored factors and whether they are TOF data; null after
+    the default constructor) and `_already_set_up` -/
+structure FpdObj (K : Type) where
+  factors : Option ((Bin → K) × Bool)
+  setUpDone : Bool
+
+/-- the default constructor (`set_defaults`, :36-41: the pointer is default-constructed, i.e. null) -/
+def FpdObj.new : FpdObj K := ⟨none, false⟩
+
+/-- the constructors from a file name / from a `shared_ptr<ProjData>` (:63-69) -/
+def FpdObj.ofData (f : Bin → K) (isTof : Bool) : FpdObj K := ⟨some (f, isTof), false⟩
+
+/-- `parse` → `post_processing` (:51-58): `norm_proj_data_ptr = ProjData::read_from_file(normalisation_projdata_filename)` —
+    UNCONDITIONALLY, whatever the object held before (`file` = the content of the file named in the text; `none`: it cannot be
+    read, `error`) -/
+def FpdObj.parse (o : FpdObj K) (file : Option ((Bin → K) × Bool)) : Option (FpdObj K) :=
+  file.map fun f => { o with factors := some f }
+
+/-- `set_up` (:81-121) with the decision `accepted` of the geometry comparison: the base class is called FIRST
+    (`_already_set_up = true` also when `Succeeded::no` is returned afterwards); without factors the C++ dereferences a null
+    pointer (`none`).  Returns the new state and what `set_up` returned. -/
+def FpdObj.setUp (o : FpdObj K) (accepted : Bool) : Option (FpdObj K × Bool) :=
+  match o.factors with
+  | none => none
+  | some _ => some ({ o with setUpDone := true }, accepted)
+
+/-- the `Norm` such an object is, once it holds factors -/
+def FpdObj.norm? (o : FpdObj K) : Option (Norm K) :=
+  if o.setUpDone then o.factors.map fun f => .fromProjData f.1 f.2 else none
+
+/-- `undo` / `apply(RelatedViewgrams&)` (:129-151) for one bin: `check()` (set up?) and then the stored factors AS THEY ARE NOW -/
+def FpdObj.undo (E : K → K) (o : FpdObj K) (b : Bin) (v : K) : Option K := o.norm?.bind fun n => C13.undo E n b v
+def FpdObj.apply (E : K → K) (floor : K) (o : FpdObj K) (b : Bin) (v : K) : Option K := o.norm?.bind fun n => C13.apply E floor n b v
+
+/-- the calls that change such an object -/
+inductive FpdStep (K : Type) where
+  | parse (file : (Bin → K) × Bool)
+  | setUp (accepted : Bool)
+
+/-- a history of calls (`none` as soon as one of them is undefined behaviour: `set_up` without factors) -/
+def FpdObj.run : FpdObj K → List (FpdStep K) → Option (FpdObj K)
+  | o, [] => some o
+  | o, .parse f :: r => (o.parse (some f)).bind fun o' => FpdObj.run o' r
+  | o, .setUp a :: r => (o.setUp a).bind fun p => FpdObj.run p.1 r
+
+/-- ONE `BinNormalisationFromAttenuationImage` object.  `img`: which attenuation image `attenuation_image_ptr` holds (an
+    identifier of type `ι`: the images exist outside the object, as files or as objects given to a constructor) and HOW MANY
+    TIMES `post_processing` has multiplied the object's copy by `rescale = voxel_size_x / 10` (:86-95); `li`: the forward
+    projection of the object's copy for the geometry of the last `set_up`. -/
+structure AttenObj (ι K : Type) where
+  img : Option (ι × Nat)
+  setUpDone : Bool
+  li : Bin → K
+
+/-- the default constructor (`set_defaults`, :37-44: both pointers null) -/
+def AttenObj.new {ι : Type} : AttenObj ι K := ⟨none, false, fun _ => 0⟩
+
+/-- `post_processing()`, called by `parse` AND by the two constructors (`file`: the image in the file named by
+    `attenuation_image_filename`, `none` if no file name is known — the constructor from an image object).  Repaired code
+    (fix C13-1; before it the file was read only while the object held no image, and whatever the object held was rescaled at
+    every call): `if (!attenuation_image_filename.empty()) { attenuation_image_ptr = read_from_file(...); _image_is_rescaled =
+    false; }` — the file is read WHENEVER a file name is known; then `if (_image_is_rescaled) return …;` and otherwise
+    `attenuation_image_ptr = clone * rescale; _image_is_rescaled = true`.
+    `none`: no image (the function returns `true`, `parse` fails). -/
+def AttenObj.postProcessing {ι : Type} (o : AttenObj ι K) (file : Option ι) : Option (AttenObj ι K) :=
+  let held : Option (ι × Nat) :=
+    match file with
+    | some f => some (f, 0)
+    | none => o.img
+  held.map fun h => { o with img := some (h.1, if h.2 = 0 then 1 else h.2) }
+
+/-- the constructor from a file name: `attenuation_image_ptr.reset(); post_processing();` -/
+def AttenObj.ofFile {ι : Type} (file : ι) : Option (AttenObj ι K) := (AttenObj.new (K := K)).postProcessing (some file)
+
+/-- the constructor from an image object (:113-121): the pointer is a clone of the image given; `post_processing()` -/
+def AttenObj.ofImage {ι : Type} (image : ι) : Option (AttenObj ι K) :=
+  (⟨some (image, 0), false, fun _ => 0⟩ : AttenObj ι K).postProcessing none
+
+/-- `x * rescale^k` -/
+def rescaled (vx : K) : Nat → K → K
+  | 0, x => x
+  | k + 1, x => rescaled vx k x * attenRescale vx
+
+/-- forward projection of the object's copy along one matrix row (elements paired with the voxel values of the image as it was
+    read / given, cm^-1), after `k` rescalings -/
+def lineIntegralK (vx : K) (k : Nat) (row : List (K × K)) : K :=
+  row.foldl (fun acc p => acc + p.1 * rescaled vx k p.2) 0
+
+/-- `set_up` (:123-136): `error` for TOF data; the forward projector is set up for the image the object
+    holds (null pointer: `none`).  `images i` = (x voxel size of image `i`, its matrix rows for the geometry of this call). -/
+def AttenObj.setUp {ι : Type} (o : AttenObj ι K) (tofMashFactor : Int) (images : ι → K × (Bin → List (K × K))) :
+    Option (AttenObj ι K) :=
+  if fromAttenSetUp tofMashFactor then
+    o.img.map fun h => { o with setUpDone := true, li := fun b => lineIntegralK (images h.1).1 h.2 ((images h.1).2 b) }
+  else none
+
+/-- `undo` / `apply(RelatedViewgrams&)` (:138-170) for one bin -/
+def AttenObj.undo {ι : Type} (E : K → K) (o : AttenObj ι K) (b : Bin) (v : K) : Option K :=
+  if o.setUpDone then fdiv v (E (o.li b)) else none
+def AttenObj.apply {ι : Type} (E : K → K) (o : AttenObj ι K) (b : Bin) (v : K) : Option K :=
+  if o.setUpDone then some (v * E (o.li b)) else none
+
+/-- ONE `ChainedBinNormalisation` object: which members it holds (identifiers of type `ι`: the members are objects of their
+    own, made by the parser from the text of the block / given to the constructor; `none` = null pointer), the chain's own
+    `_already_set_up`, and whether the members it holds NOW have been set up (`set_up` of the chain sets up its members;
+    a member made by the parser is a new object that was never set up) -/
+structure ChainObj (ι : Type) where
+  first : Option ι
+  second : Option ι
+  ownSetUp : Bool
+  membersSetUp : Bool
+
+/-- the default constructor (`set_defaults`, :30-36) -/
+def ChainObj.new {ι : Type} : ChainObj ι := ⟨none, none, false, false⟩
+
+/-- what a text says about one member: the parsing key does not occur (`none`: the member is left alone), or it occurs and
+    REPLACES the member — by a null pointer for the value `None` (`some none`: the registry's default entry, factory 0), else by
+    a new object made by the parser (`some (some m)`) -/
+abbrev MemberKey (ι : Type) := Option (Option ι)
+
+/-- the member after parsing a text that says `k` about it -/
+def MemberKey.applyTo {ι : Type} (k : MemberKey ι) (old : Option ι) : Option ι :=
+  match k with
+  | none => old
+  | some m => m
+
+/-- `parse` (:38-56): the parsing keys of the text, then `post_processing`: `error` iff both members have a calibration factor
+    `> 0` (`okCal`).  New member objects were never set up. -/
+def ChainObj.parse {ι : Type} (o : ChainObj ι) (first second : MemberKey ι) (okCal : Bool) : Option (ChainObj ι) :=
+  if okCal then
+    some { o with first := first.applyTo o.first, second := second.applyTo o.second,
+                  membersSetUp := o.membersSetUp && first.isNone && second.isNone }
+  else none
+
+/-- `set_up` (:78-89) for a geometry all members accept -/
+def ChainObj.setUp {ι : Type} (o : ChainObj ι) : ChainObj ι := { o with ownSetUp := true, membersSetUp := true }
+
+/-- the `Norm` such an object is for the geometry of its last `set_up`, `resolve m` being what member `m` is for that geometry -/
+def ChainObj.norm {ι : Type} (o : ChainObj ι) (resolve : ι → Norm K) : Norm K :=
+  .chained ((o.first.map resolve).getD .null) ((o.second.map resolve).getD .null)
 
 /-! ### line integral of a uniform box along a line of response (no matrix rows) -/
 
